@@ -3,6 +3,7 @@ package diff
 import (
 	"fmt"
 	"strings"
+	"sync"
 
 	"github.com/go-git/go-git/v5"
 	"github.com/go-git/go-git/v5/plumbing"
@@ -48,6 +49,12 @@ type repoInfo struct {
 	oldCommit *object.Commit
 	newCommit *object.Commit
 	commits   map[plumbing.Hash]*object.Commit
+	// objMu serializes every read of git objects done by the diff workers.
+	// go-git's filesystem storage is not safe for concurrent use: on packed
+	// repositories the pack index fills its offset->hash map lazily on lookup,
+	// which crashes with "concurrent map writes" when several workers read
+	// objects through the same repository handle.
+	objMu sync.Mutex
 }
 
 // newRepoInfo creates a new repoInfo
